@@ -39,18 +39,18 @@
 (assert (forall ((s Str) (a Int) (b Int)) (! (=> (and (qbody s a b) (< (+ b 1) (Str.len s)) (= (Str.nth s b) 96) (= (Str.nth s (+ b 1)) 96)) (qbody s a (+ b 2))) :pattern ((qbody s a b) (qbody s a (+ b 2))))))
 
 ; digit runs
-(define-fun allDigits ((s Str) (a Int) (b Int)) Bool (forall ((i Int)) (=> (and (<= a i) (< i b)) (isDigitC (Str.nth s i)))))
-(define-fun allHex ((s Str) (a Int) (b Int)) Bool (forall ((i Int)) (=> (and (<= a i) (< i b)) (isHexC (Str.nth s i)))))
+(define-fun-rec allDigits ((s Str) (a Int) (b Int)) Bool (forall ((i Int)) (=> (and (<= a i) (< i b)) (isDigitC (Str.nth s i)))))
+(define-fun-rec allHex ((s Str) (a Int) (b Int)) Bool (forall ((i Int)) (=> (and (<= a i) (< i b)) (isHexC (Str.nth s i)))))
 (define-fun digitEnd ((s Str) (e Int)) Bool (or (= e (Str.len s)) (not (isDigitC (Str.nth s e)))))
 ; exponent [eE][+-]?digits+ occupying [p,e)
 (define-fun expDigitsFrom ((s Str) (p Int)) Int (ite (or (= (Str.nth s (+ p 1)) 43) (= (Str.nth s (+ p 1)) 45)) (+ p 2) (+ p 1)))
-(define-fun expHead ((s Str) (p Int) (e Int)) Bool
+(define-fun-rec expHead ((s Str) (p Int) (e Int)) Bool
   (and (< p e) (<= e (Str.len s)) (or (= (Str.nth s p) 101) (= (Str.nth s p) 69))
        (< (expDigitsFrom s p) e) (allDigits s (expDigitsFrom s p) e)))
 
 ; bytes that may occur in the text of a number token
 (define-fun numByte ((c Int)) Bool (or (isHexC c) (= c 46) (= c 120) (= c 88) (= c 43) (= c 45)))
-(define-fun allNumBytes ((s Str) (a Int) (b Int)) Bool (forall ((i Int)) (=> (and (<= a i) (< i b)) (numByte (Str.nth s i)))))
+(define-fun-rec allNumBytes ((s Str) (a Int) (b Int)) Bool (forall ((i Int)) (=> (and (<= a i) (< i b)) (numByte (Str.nth s i)))))
 
 ; sbody(s,q,a,b): [a,b) is the inside of a string literal with quote q so far: runes other than q,
 ; newline and backslash, or a backslash followed by any rune but newline
@@ -87,7 +87,7 @@
 (define-fun notNext ((q Str) (e Int) (c Int)) Bool (or (= e (Str.len q)) (not (= (Str.nth q e) c))))
 (define-fun isWordKind ((k Int)) Bool (or (= k TokenIdentifier) (= k TokenAnd) (= k TokenOr) (= k TokenIn) (= k TokenBy)))
 (define-fun hasValue ((k Int)) Bool (or (= k TokenIdentifier) (= k TokenQuotedIdentifier) (= k TokenNumber) (= k TokenString) (= k TokenError)))
-(define-fun tokenOKat ((q Str) (k Int) (a Int) (e Int) (v Str)) Bool
+(define-fun-rec tokenOKat ((q Str) (k Int) (a Int) (e Int) (v Str)) Bool
   (and
     (or (and (<= 1 k) (<= k 30)) (= k TokenError))
     (=> (not (hasValue k)) (= v Str.empty))
@@ -135,7 +135,7 @@
     (=> (= k TokenNumber)
         (and (or (isDigitC (Str.nth q a)) (= (Str.nth q a) 46)) (allNumBytes q a e) (digitEnd q e) (<= (ndots q a e) 1)
              (numBytesOf v) (> (Str.len v) 0)))))
-(define-fun tokenOK ((q Str) (t Token)) Bool
+(define-fun-rec tokenOK ((q Str) (t Token)) Bool
   (tokenOKat q (Token.Kind t) (Span.Start (Token.Span t)) (Span.End (Token.Span t)) (Token.Value t)))
 
 ; Scan as a function of its input: scanOf(q) names the value Scan(q) returns (Scan is sequential,
@@ -147,3 +147,6 @@
 ; the first k pieces, each followed by a semicolon
 (define-fun-rec joinSemi ((p Seq_Str) (k Int)) Str
   (ite (<= k 0) Str.empty (Str.cat (Str.cat (joinSemi p (- k 1)) (Seq_Str.nth p (- k 1))) ";")))
+(lemma joinSemi-snoc :induction k
+  (forall ((p Seq_Str) (x Str) (k Int))
+    (! (=> (<= k (Seq_Str.len p)) (= (joinSemi (Seq_Str.snoc p x) k) (joinSemi p k))) :pattern ((joinSemi (Seq_Str.snoc p x) k)))))
